@@ -946,7 +946,7 @@ def main():
                 good = bool(out) and out[0] == 5 and mr is not None and out[1:] == mr[0] + mr[0] and mr[0] == er
                 if not good:
                     b, cust = finals[k]
-                    key = "setter-order"
+                    key = "setter-order:" + "+".join(n for n, on in (("syntax", cust), ("trim", b & 1), ("lstrip", b & 2), ("keep", b & 4)) if on)
                     det = {"setters": {"delimiters": d, "ops": [list(x) for x in ops], "segments": [list(x) for x in segs]}, "case": senc[k],
                            "order": ["%s(%d)" % (SETTER_NAMES[i], v) for i, v in ops], "profile": "release" if rel else "debug",
                            "final_settings": {"trim_blocks": bool(b & 1), "lstrip_blocks": bool(b & 2), "keep_trailing_newline": bool(b & 4), "custom_syntax": cust},
